@@ -37,6 +37,9 @@ def make_builtins(interp):
             raise Unsupported("len() of a dict of unknown size (open dict)")
         if isinstance(v, BytesV):
             return ops.rope_len(v.rope)
+        if isinstance(v, PyList) and v.prefix is not None:
+            from . import loops
+            return loops.open_list_len(interp, v)
         if isinstance(v, PyDeque) and v.rest is not None:
             return ops.add(ops.mk(v.rest[1], 0, None, 0), len(v._items))
         if isinstance(v, (PyList, PyDeque, PySet)):
